@@ -484,12 +484,15 @@ func Generate(t *rapid.T, maxDepth int) (*Pool, error) {
 		imports := map[string]bool{}
 		var b strings.Builder
 		nl := rapid.IntRange(1, 3).Draw(t, "nlocals")
+		usedTop := map[string]bool{}
 		for j := 0; j < nl; j++ {
 			lt := g.structType(pkg, 2, nil)
 			name := rapid.SampledFrom([]string{"L", "L", "M"}).Draw(t, "lname")
 			open, close := "", ""
-			if g.pick(2, "nested") == 0 {
+			if g.pick(2, "nested") == 0 || usedTop[name] {
 				open, close = "{ ", " }"
+			} else {
+				usedTop[name] = true
 			}
 			fmt.Fprintf(&b, "\t%stype %s %s; var v%d %s; _ = v%d%s\n", open, name, lt.Print(pkg, imports), j, name, j, close)
 		}
